@@ -33,8 +33,10 @@ cells); `autoLayout` (fits and pads logical texts; used by the correspondence on
 
 The model mirrors the code after the repairs of the findings F19a/F19b (the hit policy
 corner and the rule number lane are chosen by where the rule numbers are, not by the first
-text that parses), F19c/F19d (a blank allowed-values cell means no allowed values) and F19e
-(checked indexing: ragged planes are errors).
+text that parses), F19c/F19d (a blank allowed-values cell means no allowed values), F19e
+(checked indexing: ragged planes are errors) and F67-mixed-header (the header is read by its
+regions: the label lane is the lane that is one region, an allowed-values cell that continues
+the cell above it holds no allowed values — `valuesRows`, `allowedValuesText`, `outputHeader`).
 -/
 
 namespace Dmn.Recog
@@ -670,22 +672,54 @@ structure Horz where
   annotationEntries : List (List Text)
   deriving DecidableEq, Repr, Inhabited
 
-/-- recognizer.rs:150-169: are input values present?  The case analysis on the number of
-header rows. -/
-def inputValuesPresent (P : Plane) (r : Rect) (height : Nat) : Outcome Bool :=
+/-- recognizer.rs `values_rows`: the rows of the header that hold the allowed values — the last
+row and the row above it.  One header row: none; three rows: every input expression must span
+the two upper rows (`invalid_input_expressions` otherwise). -/
+def valuesRows (P : Plane) (r : Rect) (height : Nat) : Outcome (Option (Nat × Nat)) :=
   match height with
-  | 1 => ok false
-  | 2 =>
-    match P.equalRegionsInColumns r with
-    | ok b => ok (!b)
-    | error e => error e
-    | .panic s => .panic s
+  | 1 => ok none
+  | 2 => ok (some (r.top, r.top + 1))
   | 3 =>
-    match P.uniqueRegionsInColumns (r.incTop 1) with
-    | ok b => if !b then error .invalidInputExpressions else ok true
+    match P.equalRegionsInColumns ⟨r.left, r.top, r.right, r.top + 2⟩ with
+    | ok b => if !b then error .invalidInputExpressions else ok (some (r.top + 1, r.top + 2))
     | error e => error e
     | .panic s => .panic s
   | _ => error .tooManyRows
+
+/-- recognizer.rs `input_values_present`: in some column the cell in the last header row is not
+the continuation of the cell above it. -/
+def valuesPresentIn (P : Plane) (r : Rect) (vr : Option (Nat × Nat)) : Outcome Bool :=
+  match vr with
+  | some (above, last) =>
+    match P.equalRegionsInColumns ⟨r.left, above, r.right, last + 1⟩ with
+    | ok b => ok (!b)
+    | error e => error e
+    | .panic s => .panic s
+  | none => ok false
+
+/-- recognizer.rs: are input values present?  The case analysis on the number of header rows
+(`values_rows` followed by `input_values_present`). -/
+def inputValuesPresent (P : Plane) (r : Rect) (height : Nat) : Outcome Bool :=
+  match valuesRows P r height with
+  | ok vr => valuesPresentIn P r vr
+  | error e => error e
+  | .panic s => .panic s
+
+/-- recognizer.rs `allowed_values_text`: the text of the allowed-values cell in a column; empty
+when the cell is the continuation of the cell above it (the same region). -/
+def Plane.allowedValuesText (P : Plane) (above row col : Nat) : Outcome Text :=
+  match P.regionNumber row col with
+  | ok a =>
+    match P.regionNumber above col with
+    | ok b => if a = b then ok [] else P.regionText row col
+    | error e => error e
+    | .panic s => .panic s
+  | error e => error e
+  | .panic s => .panic s
+
+/-- the `for col in r.left..r.right` loop over `allowed_values_text` -/
+def Plane.valuesTexts (P : Plane) (above row left right : Nat) : Outcome (List Text) :=
+  Outcome.mapM (fun col => P.allowedValuesText above row col) (List.range' left (right - left))
 
 /-- What the output clause analysis yields: label, component names, output values. -/
 structure OutHeader where
@@ -694,58 +728,70 @@ structure OutHeader where
   values : List Text
   deriving DecidableEq, Repr, Inhabited
 
-/-- recognizer.rs:197-216: a single output column. -/
-def outputHeaderSingle (P : Plane) (r : Rect) (height : Nat) (ivp : Bool) : Outcome OutHeader :=
+/-- recognizer.rs: a single output column.  Two rows: the label, and the output values when the
+cell below the label is a separate region. -/
+def outputHeaderSingle (P : Plane) (r : Rect) (height : Nat) : Outcome OutHeader :=
   match height with
   | 1 => do
     let l ← P.regionText r.top r.left
     ok ⟨some l, [], []⟩
-  | 2 =>
-    if ivp then
-      match P.equalRegions r with
-      | .ok true => error .invalidOutputClause
-      | .ok false => do
-        let l ← P.regionText r.top r.left
-        let v ← P.regionText (r.top + 1) r.left
-        ok ⟨some l, [], [v]⟩
-      | .error e => error e
-      | .panic s => .panic s
-    else error .invalidOutputClause
+  | 2 => do
+    let l ← P.regionText r.top r.left
+    match P.equalRegions r with
+    | .ok true => ok ⟨some l, [], []⟩
+    | .ok false => do
+      let v ← P.regionText (r.top + 1) r.left
+      ok ⟨some l, [], [v]⟩
+    | .error e => error e
+    | .panic s => .panic s
   | _ => error .tooManyRows
 
-/-- recognizer.rs:217-255: several output columns. -/
-def outputHeaderMulti (P : Plane) (r : Rect) (height : Nat) (ivp : Bool) : Outcome OutHeader :=
+/-- recognizer.rs: several output columns.  Two rows: label and component names when the first
+row is a single region, component names and output values otherwise.  Three rows: the label must
+be a single region (`plane_invalid_output_clause` otherwise). -/
+def outputHeaderMulti (P : Plane) (r : Rect) (height : Nat) : Outcome OutHeader :=
   match height with
   | 1 => do
     let cs ← P.rowTexts r.top r.left r.right
     ok ⟨none, cs, []⟩
   | 2 =>
-    if ivp then do
-      let cs ← P.rowTexts r.top r.left r.right
-      let vs ← P.rowTexts (r.top + 1) r.left r.right
-      ok ⟨none, cs, vs⟩
-    else do
+    match P.equalRegions ⟨r.left, r.top, r.right, r.top + 1⟩ with
+    | .ok true => do
       let l ← P.regionText r.top r.left
       let cs ← P.rowTexts (r.top + 1) r.left r.right
       ok ⟨some l, cs, []⟩
-  | 3 => do
-    let l ← P.regionText r.top r.left
-    let cs ← P.rowTexts (r.top + 1) r.left r.right
-    let vs ← P.rowTexts (r.top + 2) r.left r.right
-    ok ⟨some l, cs, vs⟩
+    | .ok false => do
+      let cs ← P.rowTexts r.top r.left r.right
+      let vs ← P.valuesTexts r.top (r.top + 1) r.left r.right
+      ok ⟨none, cs, vs⟩
+    | .error e => error e
+    | .panic s => .panic s
+  | 3 =>
+    match P.equalRegions ⟨r.left, r.top, r.right, r.top + 1⟩ with
+    | .ok true => do
+      let l ← P.regionText r.top r.left
+      let cs ← P.rowTexts (r.top + 1) r.left r.right
+      let vs ← P.valuesTexts (r.top + 1) (r.top + 2) r.left r.right
+      ok ⟨some l, cs, vs⟩
+    | .ok false => error .invalidOutputClause
+    | .error e => error e
+    | .panic s => .panic s
   | _ => error .tooManyRows
 
-/-- recognizer.rs:192-256: the case analysis on the width and height of the output clause. -/
-def outputHeader (P : Plane) (r : Rect) (width height : Nat) (ivp : Bool) : Outcome OutHeader :=
+/-- recognizer.rs: the case analysis on the width and height of the output clause (it does not
+depend on the input clause: the regions of the output header decide). -/
+def outputHeader (P : Plane) (r : Rect) (width height : Nat) : Outcome OutHeader :=
   match width with
   | 0 => error .noOutputClause
-  | 1 => outputHeaderSingle P r height ivp
-  | _ => outputHeaderMulti P r height ivp
+  | 1 => outputHeaderSingle P r height
+  | _ => outputHeaderMulti P r height
 
-/-- recognizer.rs:175-179: the input values, read from the last header row
-(`r.bottom - 1`: `ivp` implies `r.bottom ≥ 2`). -/
-def inputValuesRow (P : Plane) (r : Rect) (ivp : Bool) : Outcome (List Text) :=
-  if ivp then P.rowTexts (r.bottom - 1) r.left r.right else ok []
+/-- recognizer.rs: the input values, read from the last header row (empty texts for the columns
+whose cell continues the cell above). -/
+def inputValuesRow (P : Plane) (r : Rect) (ivp : Bool) (vr : Option (Nat × Nat)) : Outcome (List Text) :=
+  match ivp, vr with
+  | true, some (above, last) => P.valuesTexts above last r.left r.right
+  | _, _ => ok []
 
 /-- `r.height()` of the output clause is evaluated only for a non-zero width
 (recognizer.rs:192-199). -/
@@ -757,15 +803,16 @@ def recognizeHorizontal (P : Plane) : Outcome Horz := do
   let r ← P.horzInputClauseRect
   let icc ← r.width
   let h ← r.height
-  let ivp ← inputValuesPresent P r h
+  let vr ← valuesRows P r h
+  let ivp ← valuesPresentIn P r vr
   let exprs ← P.rowTexts 0 r.left r.right
-  let ivals ← inputValuesRow P r ivp
+  let ivals ← inputValuesRow P r ivp vr
   let r ← P.horzInputEntriesRect
   let ients ← P.rectTexts r
   let r ← P.horzOutputClauseRect
   let occ ← r.width
   let oh ← outputClauseHeight r occ
-  let out ← outputHeader P r occ oh ivp
+  let out ← outputHeader P r occ oh
   let r ← P.horzOutputEntriesRect
   let oents ← P.rectTexts r
   let r ← P.horzAnnotationClausesRect
